@@ -20,6 +20,9 @@ def mk(tag, payload=(), kids=()):
             return NODES[kids[0]][2][0]
         if var in ("None", "Err"):
             return kids[1]
+    if tag == "call" and payload and payload[0] == "list::nth_back" and len(kids) == 2 and NODES[kids[1]][0] == "int" and int(NODES[kids[1]][1][0]) == 0:
+        # zero places before the last element is the last element (also after call-site substitution of the count)
+        return mk("call", ("core::slice::<impl [T]>::last", "", 0), (kids[0],))
     key = (tag, payload, kids)
     i = _TABLE.get(key)
     if i is None:
